@@ -97,4 +97,23 @@ PROPS = {
         "assumptions": ["names are compared case-insensitively after a round trip (compressors may point at an earlier occurrence spelled in another case; RFC 1035 4.1.4 does not forbid it)",
                         "which pushes fail is observed, not predicted; messages beyond 65535 octets on unlimited Vec targets are outside the property and skipped"],
     },
+    "C01": {
+        "level": "exploration",
+        "features": ["crypto", "hooks"],
+        "stages": [
+            {"mode": "native", "cpu_budget": 30},
+            {"mode": "asan", "scale": 0.08, "cpu_budget": 120},
+            {"mode": "miri", "scale": 0.0006, "shards": 16, "tiers": ["thorough"], "timeout_thorough": 3000},
+        ],
+        "rule": "an evaluation is one octet string taken twice through read_all (every header accessor, question/record/section/message iterator, typed "
+                "parsing into AllRecordData and four concrete types, OPT options, canonical_name, is_answer, contains_answer, get_last_additional, copy_records, "
+                "dig-style and zone-style display, ParsedName/ParsedRecord/Label::iter_slice at raw offsets, the XFR response interpreter and the TSIG server "
+                "entry incl. its error-response builder), once in fixed and once in seeded block order, under panic capture, a CPU-time watchdog and logical "
+                "iterator caps, with transcript equality, closure checks on every returned name/record and a differential against the reference walker; inputs "
+                "are valid generated messages, 16 structure-aware mutation kinds, exhaustive pointer-target/boundary-octet/truncation families on small "
+                "messages, random octets and a hand-made corpus; distinct = (mutation kind, #records accepted/rejected, #compressed names, record types seen, transcript size) tuples",
+        "assumptions": ["a panic documented as a caller contract violation is never provoked (only read-side calls on whatever the parser returned)",
+                        "the reference walker and the library may differ in what they accept; only 'both accept => same content' is asserted",
+                        "non-termination is decided by CPU time (30 s for inputs that normally take microseconds), confirmed by an isolated re-run with 60 s"],
+    },
 }
